@@ -367,7 +367,27 @@ func genSentinel(seed uint64, tier, variant string) any {
 	if calm {
 		p.X["final_fault"] = ""
 	}
+	// session settings (C47, sentinel part): the data nodes and the sentinels take different credentials and names, the
+	// database is selected on data nodes only (a sentinel has no SELECT)
+	p.X["auth"] = pick(r, 0, 0, 1, 2, 3, 4)
+	p.X["db"] = pick(r, 0, 0, 3)
+	p.X["dname"] = pick(r, "", "app-d")
 	return p
+}
+
+// sentCreds returns the credentials the plan gives to data nodes and to sentinels ("" = none).
+func sentCreds(p *Plan) (dUser, dPass, sUser, sPass string) {
+	switch xInt(p, "auth", 0) {
+	case 1:
+		dPass = "dpw"
+	case 2:
+		sPass = "spw"
+	case 3:
+		dPass, sPass = "dpw", "spw"
+	case 4:
+		dUser, dPass, sUser, sPass = "duser", "dpw2", "suser", "spw2"
+	}
+	return
 }
 
 // ---- run ----
@@ -756,7 +776,9 @@ func (sr *sentRun) clientOption() ClientOption {
 	opt.InitAddress = append([]string(nil), sentAddrs...)
 	opt.Sentinel = SentinelOption{MasterSet: sentSet, ClientName: sentConnName}
 	opt.Sentinel.Dialer = opt.Dialer
-	opt.ClientName = ""
+	opt.ClientName = xStr(sr.p, "dname", "")
+	opt.SelectDB = xInt(sr.p, "db", 0)
+	opt.Username, opt.Password, opt.Sentinel.Username, opt.Sentinel.Password = sentCreds(sr.p)
 	opt.PipelineMultiplex = -1
 	// what NewClient would fill in
 	if opt.ReadBufferEachConn < 32 {
@@ -848,6 +870,26 @@ func execSentinel(t *testing.T, plan any, out *Outcome) {
 	}
 	for i := range sentAddrs {
 		sr.setView(i, initial)
+	}
+	if dUser, dPass, sUser, sPass := sentCreds(p); dPass != "" || sPass != "" {
+		for _, a := range sentDataAddrs {
+			if dPass != "" {
+				u := dUser
+				if u == "" {
+					u = "default"
+				}
+				s.W.Nodes[a].Users = map[string]string{u: dPass}
+			}
+		}
+		for _, a := range sentAddrs {
+			if sPass != "" {
+				u := sUser
+				if u == "" {
+					u = "default"
+				}
+				sm.SetAuth(a, u, sPass)
+			}
+		}
 	}
 	for i, g := range p.Ghosts {
 		if g.MinStep < 0 {
@@ -1150,8 +1192,58 @@ func (sr *sentRun) replicaPath(spec CallSpec) bool {
 	return false
 }
 
+// judgeSetup is the sentinel part of C47: the first command after the setup exchange on every connection finds the
+// session the options ask for - the data-node credentials, name and database on data connections, the sentinel
+// credentials and name and database 0 on sentinel connections - and no SELECT ever reaches a sentinel.
+func (sr *sentRun) judgeSetup() {
+	s, out, p := sr.e.sim, sr.e.out, sr.p
+	dUser, dPass, sUser, sPass := sentCreds(p)
+	for _, c := range s.Net.Conns() {
+		l := s.LinkOf(c.ID)
+		if l == nil {
+			continue
+		}
+		class, _, _ := connClass(c.Tag)
+		if class == "" {
+			continue
+		}
+		wantUser, wantAuth, wantName, wantDB := "default", dPass, xStr(p, "dname", ""), xInt(p, "db", 0)
+		if dUser != "" {
+			wantUser = dUser
+		}
+		if class == "S" {
+			wantUser, wantAuth, wantName, wantDB = "default", sPass, sentConnName, 0
+			if sUser != "" {
+				wantUser = sUser
+			}
+		}
+		first := true
+		for _, ex := range l.S.Cmds {
+			if class == "S" && strings.EqualFold(ex.Argv[0], "SELECT") {
+				out.violate("C47", "select-sent-to-sentinel", "connection %d [%s]: %q was sent to a sentinel", c.ID, c.Tag, truncArgv(ex.Argv))
+			}
+			if isSetupCmd(ex.Argv) || strings.EqualFold(ex.Argv[0], "PING") || !first {
+				continue
+			}
+			first = false
+			ss := ex.Sess
+			if wantAuth != "" && (!ss.Authed || ss.User != wantUser) {
+				out.violate("C47", "session-mismatch", "connection %d [%s], first command %q: authenticated as %v/%q, the options ask for user %q", c.ID, c.Tag, truncArgv(ex.Argv), ss.Authed, ss.User, wantUser)
+			} else if ss.Name != wantName || ss.DB != wantDB {
+				out.violate("C47", "session-mismatch", "connection %d [%s], first command %q: client name %q database %d, the options ask for %q and %d", c.ID, c.Tag, truncArgv(ex.Argv), ss.Name, ss.DB, wantName, wantDB)
+			} else {
+				out.judged("C47:session-checked")
+				if class == "S" && (wantAuth != "" || xInt(p, "db", 0) != 0) {
+					out.probe("sentinel-connection-with-own-settings")
+				}
+			}
+		}
+	}
+}
+
 func (sr *sentRun) judge() {
 	e, s, out, p := sr.e, sr.e.sim, sr.e.out, sr.p
+	sr.judgeSetup()
 	lifetime, _ := p.X["lifetime"].(bool)
 	if lifetime {
 		judgeLifetimeRecovery(e, "sentinel")
